@@ -1082,20 +1082,24 @@ class OrderedSet(list, Generic[T], CBORSerializable):
         # Retrieve the type arguments from the class
         type_arg = type_args[0] if type_args else None
 
-        if isinstance(value, CBORTag) and value.tag == 258:
+        def _restore(items):
             if isclass(type_arg) and issubclass(type_arg, CBORSerializable):
-                value.value = [type_arg.from_primitive(v) for v in value.value]
+                return [type_arg.from_primitive(v) for v in items]
             elif isclass(type_arg) and issubclass(type_arg, bytes):
-                value.value = [type_arg(v) for v in value.value]
+                return [type_arg(v) for v in items]
+            elif typing.get_origin(type_arg) is Union:
+                # e.g. OrderedSet[Certificate]: every element is one of the alternatives
+                return [_restore_typed_primitive(type_arg, v) for v in items]
+            return items
+
+        if isinstance(value, CBORTag) and value.tag == 258:
+            value.value = _restore(value.value)
             return cls(value.value, use_tag=True)
 
         use_tag = isinstance(value, set)
 
         if isinstance(value, (list, tuple, set)):
-            if isclass(type_arg) and issubclass(type_arg, CBORSerializable):
-                value = [type_arg.from_primitive(v) for v in value]
-            elif isclass(type_arg) and issubclass(type_arg, bytes):
-                value = [type_arg(v) for v in value]
+            value = _restore(value)
 
             # If the value is a set, we know it is coming from a CBORTag (#6.258)
             return cls(list(value), use_tag=use_tag)
